@@ -119,7 +119,26 @@ class C04(Check):
         lines = []
         for cid, (a, b) in pairs.items():
             lines += [a.line(cid + "a"), b.line(cid + "b")]
+        # end to end on record lists without any edge (every weight 0): the network has the labelled
+        # vertices, no edges and empty source/target lists, and the run goes through in every variant
+        zero = {}
+        for n, (directed, assort, init) in enumerate(ALL_VARIANTS * (1 if self.tier == "quick" else 4)):
+            rc = random_run(rng, variants=[(directed, assort, init)], ltwt=rng.choice([("u", "u"), ("u", "r"), ("s", "u")]),
+                            maxit=rng.choice([1, 11]))
+            d2 = dict(rc.__dict__)
+            d2["recs"] = [(s, d, [0] * len(ws)) for s, d, ws in rc.recs]
+            zero["z%d" % n] = RunCase(**d2)
+            lines.append(zero["z%d" % n].line("z%d" % n))
         io2, _ = self.correspond("run", lines)
+        for cid, rc in zero.items():
+            o = io2.get(cid)
+            if not o:
+                continue
+            self.monitor("edge-less end-to-end runs")
+            net = rc.net()
+            if o.get("labels") != [str(x) for x in net.labels]:
+                self.violate("edge-less-run", "labels %s of an edge-less run differ from the distinct labels %s" % (o.get("labels"), net.labels),
+                             {"run": rc.describe(), "case": rc.line("replay")})
         for cid, (a, b) in pairs.items():
             oa, ob = io2.get(cid + "a"), io2.get(cid + "b")
             if not oa or not ob or oa.get("err") != ["0"] or ob.get("err") != ["0"]:
@@ -488,7 +507,26 @@ class C08(Check):
         lines = []
         for cid, (a, b) in pairs.items():
             lines += [a.line(cid + "a"), b.line(cid + "b")]
+        # end to end on record lists without any edge (every weight 0): the network has the labelled
+        # vertices, no edges and empty source/target lists, and the run goes through in every variant
+        zero = {}
+        for n, (directed, assort, init) in enumerate(ALL_VARIANTS * (1 if self.tier == "quick" else 4)):
+            rc = random_run(rng, variants=[(directed, assort, init)], ltwt=rng.choice([("u", "u"), ("u", "r"), ("s", "u")]),
+                            maxit=rng.choice([1, 11]))
+            d2 = dict(rc.__dict__)
+            d2["recs"] = [(s, d, [0] * len(ws)) for s, d, ws in rc.recs]
+            zero["z%d" % n] = RunCase(**d2)
+            lines.append(zero["z%d" % n].line("z%d" % n))
         io2, _ = self.correspond("run", lines)
+        for cid, rc in zero.items():
+            o = io2.get(cid)
+            if not o:
+                continue
+            self.monitor("edge-less end-to-end runs")
+            net = rc.net()
+            if o.get("labels") != [str(x) for x in net.labels]:
+                self.violate("edge-less-run", "labels %s of an edge-less run differ from the distinct labels %s" % (o.get("labels"), net.labels),
+                             {"run": rc.describe(), "case": rc.line("replay")})
         for cid, (a, b) in pairs.items():
             oa, ob = io2.get(cid + "a"), io2.get(cid + "b")
             if not oa or not ob:
